@@ -155,6 +155,54 @@ def sparse_elementwise_shapes(E, op, rhs):
     E.eq(O.den(A), before, "receiver unchanged")
 
 
+@ob("C19", params=[dict(group=g) for g in ("reshape", "products", "innerprod", "elementwise", "permute")], max_paths=20000,
+    bounds="receiver: an sptensor WITHOUT stored entries (all-zero 2x3x2 / 2x3), where short cuts for 'nothing to do' can overtake the validation: "
+           "reshape targets a x b with a, b enumerated in [1, 7]; wrong-size vectors / matrices / factors; mismatched partners of every kind; invalid orders")
+def empty_sparse_receiver(E, group):
+    """an all-zero sparse receiver rejects the same ill-formed requests as any other tensor"""
+    from obligations.C03 import OPS
+    Z = ttb.sptensor(shape=(2, 3, 2))
+    Z2 = ttb.sptensor(shape=(2, 3))
+    if group == "reshape":
+        a, b = int(E.int("a", 1, 7)), int(E.int("b", 1, 7))
+        _expect(E, a * b == 12, lambda: Z.reshape((a, b)), "empty sptensor.reshape", [Z])
+        _expect(E, a * b == 6, lambda: Z.reshape((a, b), np.array([0, 1])), "empty sptensor.reshape of modes (0,1)", [Z])
+    elif group == "products":
+        n = int(E.int("n", 1, 4))
+        m = int(E.int("m", -1, 3))
+        ok_mode = 0 <= m <= 2
+        _expect(E, ok_mode and n == (2, 3, 2)[m if ok_mode else 0], lambda: Z.ttv(E.reals("v", (n,)), m), "empty sptensor.ttv", [Z])
+        _expect(E, ok_mode and n == (2, 3, 2)[m if ok_mode else 0], lambda: Z.ttm(E.reals("M", (2, n)), m), "empty sptensor.ttm", [Z])
+        U = [E.reals("A", (2, 2)), E.reals("B", (n, 2)), E.reals("C", (2, 2))]
+        _expect(E, ok_mode and (n == 3 or m == 1), lambda: Z.mttkrp(U, m), "empty sptensor.mttkrp", [Z])  # the mode-m factor itself is not used
+        E.raises(lambda: Z.mttkrp(U[:2], 0), "empty sptensor.mttkrp: too few factors")
+        _expect(E, n == 3, lambda: Z.scale(E.reals("f", (n,)), 1), "empty sptensor.scale", [Z])
+    elif group == "innerprod":
+        for kind in ("tensor", "sptensor", "ktensor", "ttensor"):
+            for shape, ok in (((2, 3), True), ((3, 2), False), ((2, 3, 1), False), ((6,), False)):
+                B = _holder2(E, kind, shape)
+                _expect(E, ok, lambda: Z2.innerprod(B), f"empty sptensor.innerprod({kind} {shape})")
+                if kind != "sptensor":
+                    _expect(E, ok, lambda: B.innerprod(Z2), f"{kind} {shape}.innerprod(empty sptensor)")
+        for shape, ok in (((2, 3), True), ((3, 2), False), ((2, 3, 1), False)):
+            _expect(E, ok, lambda: Z2.innerprod(ttb.sptensor(shape=shape)), f"empty sptensor.innerprod(empty sptensor {shape})")
+    elif group == "elementwise":
+        for op in ("add", "sub", "mul", "div", "eq", "ne", "lt", "ge", "and", "or", "xor"):
+            fn = OPS[op][0]
+            for rhs in ("sptensor", "tensor"):
+                for shape in ((3, 2), (2, 3, 1), (1, 3), (2, 1)):
+                    B = _holder2(E, rhs, shape)
+                    E.raises(lambda: fn(Z2, B), f"empty sptensor {op} {rhs} of shape {shape}")
+                    if rhs == "sptensor":
+                        E.raises(lambda: fn(B, ttb.sptensor(shape=(2, 3))), f"sptensor of shape {shape} {op} empty sptensor 2x3")
+            E.raises(lambda: fn(Z2, ttb.sptensor(shape=(3, 2))), f"empty sptensor {op} empty sptensor of another shape")
+    else:
+        p = [int(E.int(f"p{i}", -1, 3)) for i in range(3)]
+        _expect(E, _is_perm(p, 3), lambda: Z.permute(np.array(p)), "empty sptensor.permute", [Z])
+        E.raises(lambda: Z.permute(np.arange(4)), "empty sptensor.permute: too many entries")
+        E.raises(lambda: Z.permute(np.arange(2)), "empty sptensor.permute: too few entries")
+
+
 @ob("C19", params=[dict(kind=k) for k in ("ktensor", "ttensor", "tenmat", "sptenmat", "sumtensor", "tensor", "sptensor", "khatrirao", "arith")],
     bounds="constructors and algebra given inconsistent components (enumerated catalogue per class)")
 def inconsistent_components(E, kind):
